@@ -531,6 +531,8 @@ def cvt_case_problems(cs, f):
         B = None
         if I.is_app(A, 'round') or I.is_app(A, 'rint'):
             B = A.args[0]
+        elif A.is_Integer:
+            B = A                    # round() of an integral constant, folded
         elif I.is_app(A, 'floor'):
             B = A.args[0] - sp.Rational(1, 2)
         elif unknown_atoms(A, ()):
@@ -579,10 +581,18 @@ def check_packing(ctx, U):
     if s1 is not None:
         n += 1
         try:
-            cvt = s1.value('ret')
-            probs, und = cvt_case_problems(I.cases(cvt), f)
+            cs1 = guarded(s1)                        # all paths and select cases: [(guard, Sel-free term)]
+            probs, und = cvt_case_problems(cs1, f)
+            if len(s1.paths) == 1:
+                cvt = s1.value('ret')
+            else:
+                # control-flow form of the clamp: one term with the path guards as select conditions (paths partition the inputs)
+                cvt = cs1[-1][1]
+                for g_, v_ in reversed(cs1[:-1]):
+                    cvt = I.mk_sel(I.b_and(*g_), v_, cvt)
             report(ctx, R, inst, VEC, key('cvt_uint32(float)', ''), probs, und,
-                   'round(255 * c) with c = clamp of f to [0, 1] (saturating, identity inside)', ['result: %s' % cvt])
+                   'round(255 * c) with c = clamp of f to [0, 1] (saturating, identity inside)%s'
+                   % (' [%d paths]' % len(s1.paths) if len(s1.paths) > 1 else ''), ['result: %s' % cvt])
             if probs or und:
                 cvt = None
         except Undecided as e:
@@ -634,13 +644,74 @@ def check_packing(ctx, U):
         report(ctx, R, inst, VEC, key(fname, ''), probs, [] if probs else und,
                'cvt(x) | cvt(y) << 8 | cvt(z) << 16 | cvt(w) << 24, each through the saturating clamp', ['result: %s' % t])
 
+    def match_channels_paths(inst, paths, chan_terms, fname):
+        """several control-flow paths (the per-channel clamp is written with branches): on every path and for every channel
+        the byte field of the packed word that depends on that channel must equal cvt(channel) << 8k under the path guard"""
+        names = 'xyzw'
+        deps = [ct.free_symbols for ct in chan_terms]
+        probs, und = [], []
+        for g, t in paths:
+            for g2, t2 in I.cases(t, g):
+                if I.or_operands(t2) != [t2]:
+                    ops = I.or_operands(t2)
+                elif t2.is_Add:
+                    ops = list(t2.args)
+                else:
+                    ops = [t2]
+                const = 0
+                fields = {k: sp.Integer(0) for k in range(4)}
+                mixed = False
+                for o in ops:
+                    if o.is_Integer:
+                        const |= int(o) & 0xFFFFFFFF        # i32 residues are printed signed
+                        continue
+                    ks = [k for k in range(4) if o.free_symbols & deps[k]]
+                    if not ks:
+                        # a symbol-free, unfolded operand: the channel whose expected field it equals under this guard
+                        ks = [k for k in range(4) if fields[k] == 0 and
+                              I.equal_guarded([(g2, o)], [((), 2 ** (8 * k) * cvt.xreplace({f: chan_terms[k]}))])[0]][:1]
+                    if len(ks) != 1:
+                        mixed = True
+                        break
+                    fields[ks[0]] += o
+                if mixed or const < 0 or const >> 32:
+                    und.append('path `%s`: packed word %s is not a combination of per-channel fields' % (show_guard(g2), t2))
+                    continue
+                for k in range(4):
+                    byte = (const >> (8 * k)) & 255
+                    if byte and fields[k] != 0:
+                        und.append('path `%s`: byte %d of the packed word has a constant and a variable part' % (show_guard(g2), k))
+                        continue
+                    field = fields[k] + byte * 2 ** (8 * k)
+                    try:
+                        if I.equal_guarded([(g2, field)], [((), 2 ** (8 * k) * cvt.xreplace({f: chan_terms[k]}))])[0]:
+                            continue
+                        found = [sh for sh in range(4) if sh != k and fields[k] != 0 and
+                                 I.equal_guarded([(g2, fields[k])], [((), 2 ** (8 * sh) * cvt.xreplace({f: chan_terms[k]}))])[0]]
+                    except Undecided as ex:
+                        und.append(str(ex))
+                        continue
+                    if found:
+                        probs.append(('channel-%s' % names[k], 'channel %s is packed at bit %d instead of bit %d' % (names[k], 8 * found[0], 8 * k)))
+                    else:
+                        probs.append(('channel-%s' % names[k], 'on the path `%s` the field of channel %s is %s, not cvt_uint32(%s) << %d'
+                                      % (show_guard(g2), names[k], field, names[k], 8 * k)))
+        report(ctx, R, inst, VEC, key(fname, ''), probs, [] if probs else und[:3],
+               'on each of the %d paths: cvt(x) | cvt(y) << 8 | cvt(z) << 16 | cvt(w) << 24, each through the saturating clamp' % len(paths))
+
+    def match_packed(inst, s_, chan_terms, fname):
+        if len(s_.paths) == 1:
+            match_channels(inst, s_.value('ret'), chan_terms, fname)
+        else:
+            match_channels_paths(inst, s_.values('ret'), chan_terms, fname)
+
     # ---- cvt_uint32(vec4f)
     inst = 'cvt_uint32(vec4f) [%s]' % U.cfg
     s4 = U.summary(R, inst, 'K_cvt4', VEC)
     if s4 is not None and cvt is not None:
         n += 1
         try:
-            match_channels(inst, s4.value('ret'), [sym('v[%d]' % (4 * k)) for k in range(4)], 'cvt_uint32(vec4f)')
+            match_packed(inst, s4, [sym('v[%d]' % (4 * k)) for k in range(4)], 'cvt_uint32(vec4f)')
         except Undecided as e:
             ctx.undecided(R, inst, str(e), VEC)
     # ---- linear_to_srgba
@@ -710,7 +781,7 @@ def check_packing(ctx, U):
     if s8 is not None and cvt is not None and chans is not None:
         n += 1
         try:
-            match_channels(inst, s8.value('ret'), chans, 'linear_to_srgba8')
+            match_packed(inst, s8, chans, 'linear_to_srgba8')
         except Undecided as e:
             ctx.undecided(R, inst, str(e), VEC)
     return n
